@@ -282,6 +282,59 @@ func rowFor(g *sqlh.Gen, t *sqlh.TableDesc, c *Case, f sqlh.Filter) {
 	c.Contents = append(c.Contents, row)
 }
 
+// genLarge: one very large batch (1001..2500 plain Query callers) over few rows, the filters drawn from a
+// handful of exactly typed ones, so that every row is asked for by many callers far apart in the batch
+// (whatever the batch function does per chunk of callers must not show in what a caller receives).
+func genLarge(g *sqlh.Gen) Case {
+	base := genCase(g)
+	t := sqlh.TableByName(base.Table)
+	c := Case{Table: base.Table, Contents: base.Contents, Origin: "generated-large"}
+	if len(c.Contents) > 5 {
+		c.Contents = c.Contents[:5]
+	}
+	var pool []sqlh.Filter
+	for _, f := range base.Filters {
+		ok := true
+		for k, v := range f {
+			if !sqlh.ExactlyTyped(t.Col(k), v) {
+				ok = false
+			}
+		}
+		if ok {
+			pool = append(pool, f)
+		}
+	}
+	for ci := range t.Cols { // and one filter per column taken from the first row
+		col := &t.Cols[ci]
+		v := filterValueExact(col, c.Contents[0][ci])
+		if sqlh.ExactlyTyped(col, v) {
+			pool = append(pool, sqlh.Filter{col.Name: v})
+		}
+	}
+	n := 1001 + g.R.Intn(1500)
+	for i := 0; i < n; i++ {
+		c.Filters = append(c.Filters, pool[g.R.Intn(len(pool))])
+	}
+	return c
+}
+
+// filterValueExact: the stored value as a filter value of the column's exact Go type.
+func filterValueExact(c *sqlh.ColDesc, stored CV) sqlh.GV {
+	bt := sqlh.BaseType(c.Ty)
+	switch stored.K {
+	case "null":
+		return sqlh.GV{T: "nil"}
+	case "int":
+		if bt == "bool" {
+			return sqlh.GV{T: "bool", B: stored.Z != 0}
+		}
+		return sqlh.GV{T: bt, Z: stored.Z}
+	case "float":
+		return sqlh.GV{T: bt, Q: stored.Q}
+	}
+	return sqlh.GV{T: bt, S: stored.S}
+}
+
 func genCase(g *sqlh.Gen) Case {
 	t := sqlh.Tables[g.R.Intn(len(sqlh.Tables))]
 	c := Case{Table: t.Name, Origin: "generated"}
@@ -556,6 +609,10 @@ func main() {
 		}
 		for i := 0; i < o.N; i++ {
 			g := &sqlh.Gen{R: r.Fork()}
+			if g.R.Intn(150) == 0 || i == o.N/2 { // a few very large batches per run, at least one
+				cases = append(cases, genLarge(g))
+				continue
+			}
 			cases = append(cases, genCase(g))
 		}
 	}
@@ -727,6 +784,10 @@ func main() {
 		}
 
 		if searching {
+			continue
+		}
+		if len(c.Filters) > 300 {
+			run.Hist("skipped-model:large-batch (oracle only)")
 			continue
 		}
 		// ---- Coq case ----
